@@ -14,6 +14,7 @@ import (
 //verif:unwind 200
 //verif:maxconcretize 16
 //verif:maxdecisions 4000
+//verif:maxpaths quick=20000 thorough=600000
 
 func verifC20IsHex16(s string) bool {
 	if len(s) != 16 {
